@@ -234,6 +234,31 @@ def compare_message(ctx, decs, encs, b, ids, spec, do_encode=True):
         fjs = json.dumps(FlatJsonRenderer().render(m), cls=EntityEncoder)
     except Exception:
         return
+    # the same values with the delayed replication factors given as floats (2.0 for 2: what other tools' JSON may hold): whatever
+    # the interpreting encoder makes of that form - bytes or a refusal - the compiling encoders make the same of it
+    try:
+        labels_all = [[str(d) for d in ds] for ds in td_of(m).decoded_descriptors_all_subsets]
+        fo = json.loads(fjs)
+        nfac = 0
+        for si, srow in enumerate(fo[-2][-1]):
+            labs = labels_all[si if si < len(labels_all) else 0]
+            for j, lab in enumerate(labs):
+                if lab in ('031000', '031001', '031002') and j < len(srow) and isinstance(srow[j], int):
+                    srow[j] = float(srow[j])
+                    nfac += 1
+        if nfac:
+            ff = json.dumps(fo)
+            ctx.count('encodes_with_float_replication_factors')
+            ob = outcome(lambda: ('ok', encs['plain'].process(ff).serialized_bytes))
+            for name in ('compiled', 'reloaded'):
+                o = outcome(lambda: ('ok', encs[name].process(ff).serialized_bytes))
+                if o[0] != ob[0] or (o[0] == 'ok' and o != ob) or (o[0] == 'exc' and o[1] != ob[1]):
+                    ctx.violate('encode/%s-differs/input-form/float-replication-factor/%s' % (name, 'error-vs-result' if o[0] != ob[0] else 'other'),
+                                '%s encoder and interpreting encoder disagree on values whose replication factors are given as floats: %r vs %r'
+                                % (name, o[1:] if o[0] == 'exc' else len(o[1]), ob[1:] if ob[0] == 'exc' else len(ob[1])), dict(spec, form='float-replication-factor'))
+                    break
+    except Exception as e:
+        ctx.notes.append('float factor form skipped: %r' % (e,))
     eb = outcome(lambda: ('ok', encs['plain'].process(fjs).serialized_bytes))
     for name in ('compiled', 'reloaded', 'saved', 'saved', 'held'):
         o = outcome(lambda: ('ok', encs[name].process(fjs).serialized_bytes))
